@@ -58,6 +58,9 @@ package l4rdp
 //@ requires len(src) <= 65535
 //@ ensures[C18@thorough] result
 
+//@ func lemmaTokenHeaderSerializeParse(version uint8, reserved uint8, length uint16, indicator uint8, typeCredit uint8, dstRef uint16, srcRef uint16, classOptions uint8) bool
+//@ ensures[C18] result
+
 //@ func lemmaTPKTSerializeParse(h TPKTHeader) bool
 //@ ensures[C18] result
 //@ func lemmaX224SerializeParse(x X224Crq) bool
